@@ -166,16 +166,18 @@ def rows_with_paths(t):
     """Assign each data row its section path (list of header names), using indentation.
     Returns list of (path_tuple, Row)."""
     out = []
-    stack = []   # (indent, name)
+    stack = []   # (level, name)
     for r in t.rows:
         if r.blank:
             continue
+        level = (r.indent // 2 + 1) if r.bullet else 0
         if r.is_header:
-            while stack and stack[-1][0] >= r.indent:
+            while stack and stack[-1][0] >= level:
                 stack.pop()
-            stack.append((r.indent, r.name))
+            stack.append((level, r.name))
         else:
-            while stack and stack[-1][0] >= r.indent:
+            # data rows may be nested below other data rows (refgroups): only headers form the path
+            while stack and stack[-1][0] >= level:
                 stack.pop()
             out.append((tuple(n.decode("utf-8", "replace") for _, n in stack), r))
     return out
